@@ -16,6 +16,7 @@ CONSTANTS
   CrashSet <- OnlyC
   StopSet <- SetB
   Sync = TRUE
+  TrackAge = FALSE
 INVARIANTS TypeOK Converged LearnsLive ForgetsDead PeerForgotten PeerLearnt SelfListed PeriodRestored NoDuplicateAddr ChannelSane
 PROPERTIES CallbackIffChange NoResurrection
 ACTION_CONSTRAINT Dump
